@@ -6,7 +6,9 @@ Correspondence:
       visible names, latest bytes and the archive file length versus Model/C12.lean (crashAfter k);
   (b) feature stores of a generated dataset written as directories, then packed into keypoints.tar / descriptors.tar /
       global_features.tar / matches.tar with the standard tarfile module: the dataset loads to the same content both ways and
-      every array reads back identical (model: pack_equals_dir).
+      every array reads back identical (model: pack_equals_dir); every packed archive is also listed member by member with the
+      standard tarfile module (data / hard link / symbolic link) and what TarHandler reads back under each name is compared with
+      Model/C12.readL, which resolves link members through the archive the way TarFile.extractfile does.
 Oracle (implementation only): after a kill at k, each of the k completed appends is readable as the latest version under its
 name; packing changes nothing observable.
 """
@@ -206,7 +208,37 @@ def _store(c):
             dig_tar = mc.feature_file_digests(root, as_tar, th)
         finally:
             th.close()
-        return {'as_dir': as_dir, 'as_tar': as_tar, 'dig_dir': dig_dir, 'dig_tar': dig_tar, 'packed': packed}
+        # every packed archive member by member (read with the standard tarfile module, no kapture code) for the model, and what
+        # TarHandler reads back under every name it indexes
+        from kapture.io.tar import TarHandler
+        tars = []
+        for dp, _, fns in sorted(os.walk(os.path.join(root, 'reconstruction'))):
+            for fn in sorted(fns):
+                if not fn.endswith('.tar'):
+                    continue
+                tp = os.path.join(dp, fn)
+                table = {}
+                members = []
+                with tarfile.open(tp, 'r') as tf:
+                    for ti in tf.getmembers():
+                        name = os.path.normpath(ti.name)
+                        if ti.isreg():
+                            blob = tf.extractfile(ti).read()
+                            members.append([name, 'data', [table.setdefault(blob, len(table))]])
+                        elif ti.islnk():
+                            members.append([name, 'hard', os.path.normpath(ti.linkname)])
+                        elif ti.issym():
+                            members.append([name, 'sym', os.path.normpath(os.path.join(os.path.dirname(ti.name), ti.linkname))])
+                reads = []
+                with TarHandler(tp, 'r') as h:
+                    for key in sorted(set(os.path.normpath(k) for k, ti in h.content.items() if not ti.isdir())):
+                        try:
+                            got = h.get_array_from_tar(key, np.uint8, 1).tobytes()
+                            reads.append([key, [table[got]] if got in table else [-1, len(got)]])
+                        except Exception as e:
+                            reads.append([key, None])
+                tars.append({'tar': os.path.relpath(tp, root), 'members': members, 'reads': reads})
+        return {'as_dir': as_dir, 'as_tar': as_tar, 'dig_dir': dig_dir, 'dig_tar': dig_tar, 'packed': packed, 'tars': tars}
     finally:
         shutil.rmtree(base, ignore_errors=True)
 
@@ -216,17 +248,23 @@ def run_impl(c):
     if c['op'] == 'kill':
         return {'length': r['length'], 'read': None if r['content'] is None else sorted([n, b] for n, b in r['content'].items()),
                 'open_error': r['open_error'], 'killed': r['killed']}
-    return {'same': r['as_dir'] == r['as_tar'] and r['dig_dir'] == r['dig_tar']}
+    return {'same': r['as_dir'] == r['as_tar'] and r['dig_dir'] == r['dig_tar'], 'tars': r['tars']}
 
 
 def to_model(c):
     if c['op'] == 'kill':
         return [{'appends': [[a[0], a[1]] for a in c['appends']], 'k': c['k']}]
-    return []
+    return [{'members': [m for m in t['members'] if m[1] != 'dir']} for t in run_real(c)['tars']]
 
 
 def compare(c, io, mo):
     if c['op'] != 'kill':
+        # what TarHandler reads back under every name of every packed archive, link members included, versus Model/C12.readL
+        for t, m in zip(io['tars'], mo):
+            want = {n: b for n, b in m.get('reads', [])}
+            for n, b in t['reads']:
+                if want.get(n, 'absent') != b:
+                    return f'{t["tar"]}: {n} reads {b} through TarHandler, the model says {want.get(n, "absent")}'
         return None
     mo = mo[0]
     if not io['killed']:
